@@ -148,6 +148,9 @@ def h2(ctx, rid):
                     continue
             # receiver file created in this body
             ogs = core.origins_ip(prog, f, c.args[0], depth=2)
+            # a helper that returns `Result<File>` merges the residual of its own `?`s into the value: only origins that produce a
+            # file count (the error of a failed append is not a file)
+            ogs = [o for o in ogs if not (o.kind == 'call' and o.data.dest and 'File' not in o.fn.locals[o.data.dest[0]]['s'])]
             if not all(o.kind == 'call' and o.data.name == 'create' and 'IoDriver' in o.data.path for o in ogs) or not ogs:
                 ctx.bad(rid, key, c.where(), 'positional write on a file not created by this index builder: %s' % ogs)
                 continue
